@@ -28,10 +28,19 @@ def fields_rule(ctx, res):
         key = "C14.fields/" + tname
         rx = r"^<json_syntax::Object as %s>::%s" % (re.escape(tpath), method)
         insts = [i for i in P.inst if re.search(rx, i["name"])]
-        if len(insts) != 1:
-            res.violation("C14.fields", key + "/missing", "impl %s for Object: %d instances of `%s` (anchor lost)" % (tname, len(insts), method))
+        if not insts:
+            res.violation("C14.fields", key + "/missing", "impl %s for Object: no instance of `%s` in the program (anchor lost)" % (tname, method))
             continue
-        inst = insts[0]
+        # a generic method (hash::<H>) may be instantiated several times: every instance is checked (same keys: the first
+        # deviation is reported)
+        for inst in insts:
+            fields_one(P, res, tname, tpath, method, key, inst)
+    # PartialOrd may legitimately be written as Some(self.entries.cmp(..)): accept Ord::cmp as its delegate
+    res.floor("C14.fields", "object_impls", 3)
+
+
+def fields_one(P, res, tname, tpath, method, key, inst):
+    for _once in (0,):
         # field discipline: only `entries` of Object is touched
         acc = static.field_accesses(P, inst, "json_syntax::Object")
         touched = sorted(set(f for _, _, f, _ in acc))
@@ -77,8 +86,6 @@ def fields_rule(ctx, res):
         elif tname != "Hash":
             res.ob(isinstance(rv, Top) and rv.tag == "delegate-result", "C14.fields", key + "/result", "%s does not return the delegate's result unchanged: %r" % (method, rv))
         res.count("object_impls")
-    # PartialOrd may legitimately be written as Some(self.entries.cmp(..)): accept Ord::cmp as its delegate
-    res.floor("C14.fields", "object_impls", 3)
 
 
 def derive_rule(ctx, res):
